@@ -414,6 +414,8 @@ func (c *FnCtx) specCtx(st *State) *SpecCtx {
 	for obj, t := range st.vars {
 		if _, clash := env[obj.Name()]; !clash {
 			env[obj.Name()] = t
+		} else if v, ok := obj.(*types.Var); ok && c.captured[v] {
+			env[obj.Name()] = t
 		}
 	}
 	return &SpecCtx{c: c, pkg: c.fi.Pkg, pos: c.fi.Body.Pos(), env: env, st: st, old: c.entry}
